@@ -184,11 +184,11 @@ def scenario_seq(sc, libdir, dump, pre_augment=None):
 
 
 # ------------------------------------------------------------------ random operation sequences
-NAMES = ['o1', 'o2', 'o3', 'werror', 'default_library', 'buildtype', 'debug', 'optimization', 'prefix', 'bindir',
+NAMES = ['o1', 'o2', 'o3', 'c_', '_', 'b_', 'backend_', 'o-1', 'x y', 'é_opt', 'dir', 'xdir', 'c_é', 'cpp', 'werror', 'default_library', 'buildtype', 'debug', 'optimization', 'prefix', 'bindir',
          'libdir', 'sysconfdir', 'localstatedir', 'unity_size', 'force_fallback_for', 'pkg_config_path', 'c_std',
          'cpp_args', 'b_lto', 'b_foo', 'backend_max_links', 'python.bytecompile', 'python.purelibdir', 'wrap_mode', 'backend',
          'namingscheme', 'x.y']
-SUBS = [None, None, '', SUB, SUB, 'other']
+SUBS = [None, None, '', SUB, SUB, 'other', 's p', 'ü']
 PATHS = ['/usr', '/usr/local', '/usr/', '/opt/x', '/', '//', '//net/x', '/usr/local/', 'rel/dir', '/usr/lib', '/usr/local/lib',
          '/usr/local/../x', 'a/../b', './bin', 'bin//x/', '', '.', '/usr/local/etc', '/etc', '/opt/x/', 'C:/', '/a\\', '/:/', '/usr/localx/y']
 KINDS = ['s', 'b', kint(0, 10), kint(None, 3), kint(-2, None), kint(None, None), kcombo(['a', 'b', 'c']), kcombo(['true', 'false', '1']),
@@ -437,6 +437,8 @@ def replay(ctx):
         print('property clauses failing on the implementation:', json.dumps(res['oracle'], indent=1))
     if 'cli' in r:
         print(json.dumps(cli_run(ctx, r['cli']), indent=1))
+    if 'clix' in r:
+        print(json.dumps(cli_extra_run(ctx, 0, r['clix']), indent=1))
     return 0
 
 
@@ -537,6 +539,106 @@ def cli_run(ctx, case):
     return res
 
 
+# ------------------------------------------------------------------ CLI end-to-end projects
+# Each case: files, extra argv, and what the property text says must come out: either the
+# values printed by message('NAME=@0@='.format(get_option(...))) or a refusal (rc != 0).
+def _msg(*names, sub=False):
+    return ''.join("message('%s%s=@0@='.format(get_option('%s')))\n" % ('S_' if sub else '', n.replace('.', '_'), n) for n in names)
+
+
+def cli_extra_cases():
+    C = []
+
+    def add(name, files, args, expect=None, fail=False):
+        C.append({'name': name, 'files': files, 'args': args, 'expect': expect or {}, 'fail': fail})
+    dirs = _msg('prefix', 'sysconfdir', 'localstatedir', 'sharedstatedir', 'bindir')
+    add('prefix-default', {'meson.build': "project('p')\n" + dirs}, [],
+        {'prefix': '/usr/local', 'sysconfdir': 'etc', 'localstatedir': '/var/local', 'sharedstatedir': '/var/local/lib', 'bindir': 'bin'})
+    add('prefix-usr-cmdline', {'meson.build': "project('p', default_options: ['prefix=/opt/x'])\n" + dirs}, ['-Dprefix=/usr/'],
+        {'prefix': '/usr', 'sysconfdir': '/etc', 'localstatedir': '/var', 'sharedstatedir': '/var/lib'})
+    add('prefix-default-options', {'meson.build': "project('p', default_options: ['prefix=/opt/x'])\n" + dirs}, [],
+        {'prefix': '/opt/x', 'sysconfdir': 'etc', 'localstatedir': 'var', 'sharedstatedir': 'com'})
+    add('prefix-machine-file-beats-default', {'meson.build': "project('p', default_options: ['prefix=/opt/x', 'sysconfdir=/my/etc'])\n" + dirs,
+                                              'native.ini': "[built-in options]\nprefix = '/usr'\n"}, ['--native-file', 'native.ini'],
+        {'prefix': '/usr', 'sysconfdir': '/my/etc', 'localstatedir': '/var'})
+    add('dir-inside-prefix-relativised', {'meson.build': "project('p')\n" + dirs}, ['-Dprefix=/opt/x', '-Dbindir=/opt/x/mybin', '-Dsysconfdir=/opt/x/etc'],
+        {'prefix': '/opt/x', 'bindir': 'mybin', 'sysconfdir': '/opt/x/etc'})
+    add('dir-dotdot-rejected', {'meson.build': "project('p')\n"}, ['-Dbindir=/usr/local/../bin'], fail=True)
+    add('prefix-relative-rejected', {'meson.build': "project('p')\n"}, ['-Dprefix=rel/dir'], fail=True)
+    bt = _msg('buildtype', 'debug', 'optimization')
+    add('buildtype-release', {'meson.build': "project('p')\n" + bt}, ['-Dbuildtype=release'],
+        {'buildtype': 'release', 'debug': 'false', 'optimization': '3'})
+    add('buildtype-explicit-debug-before-on-cmdline', {'meson.build': "project('p')\n" + bt}, ['-Ddebug=true', '-Doptimization=1', '-Dbuildtype=release'],
+        {'buildtype': 'release', 'debug': 'true', 'optimization': '1'})
+    add('buildtype-default-options-then-cmdline-explicit', {'meson.build': "project('p', default_options: ['buildtype=minsize'])\n" + bt}, ['-Doptimization=2'],
+        {'buildtype': 'minsize', 'debug': 'true', 'optimization': '2'})
+    add('buildtype-machine-file', {'meson.build': "project('p')\n" + bt, 'native.ini': "[built-in options]\nbuildtype = 'debugoptimized'\n"},
+        ['--native-file', 'native.ini'], {'buildtype': 'debugoptimized', 'debug': 'true', 'optimization': '2'})
+    add('invalid-combo-rejected', {'meson.build': "project('p')\n"}, ['-Dwarning_level=9'], fail=True)
+    add('invalid-range-rejected', {'meson.build': "project('p')\n"}, ['-Dunity_size=1'], fail=True)
+    add('invalid-bool-rejected', {'meson.build': "project('p', default_options: ['werror=maybe'])\n"}, [], fail=True)
+    add('invalid-machine-file-type-rejected', {'meson.build': "project('p')\n", 'native.ini': "[built-in options]\nunity_size = 'many'\n"},
+        ['--native-file', 'native.ini'], fail=True)
+    add('invalid-project-option-choice-rejected', {'meson.build': "project('p')\n", 'meson.options': "option('c', type: 'combo', choices: ['a', 'b'], value: 'a')\n"},
+        ['-Dc=z'], fail=True)
+    add('invalid-array-choice-rejected', {'meson.build': "project('p')\n", 'meson.options': "option('arr', type: 'array', choices: ['a', 'b'], value: ['a'])\n"},
+        ['-Darr=a,z'], fail=True)
+    add('unknown-option-rejected', {'meson.build': "project('p')\n"}, ['-Dno_such_option=1'], fail=True)
+    add('module-option', {'meson.build': "project('p', default_options: ['python.bytecompile=1'])\n" + _msg('python.bytecompile', 'python.install_env')},
+        ['-Dpython.install_env=venv', '-Dpython.bytecompile=2'], {'python_bytecompile': '2', 'python_install_env': 'venv'})
+    add('module-option-range-rejected', {'meson.build': "project('p')\n"}, ['-Dpython.bytecompile=7'], fail=True)
+    add('per-machine-array', {'meson.build': "project('p')\n" + _msg('pkg_config_path', 'build.pkg_config_path')},
+        ['-Dpkg_config_path=/a,/b', '-Dbuild.pkg_config_path=/c'],
+        {'pkg_config_path': "['/a', '/b']", 'build_pkg_config_path': "['/a', '/b']"})      # native: build.X reads X, setting it is ignored
+    dep_opts = ("option('old_name', type: 'string', value: 'o', deprecated: 'new_name')\n"
+                "option('new_name', type: 'string', value: 'n')\n"
+                "option('b', type: 'boolean', value: true, deprecated: {'yes': 'true', 'no': 'false'})\n")
+    add('deprecated-rename-and-map', {'meson.build': "project('p')\n" + _msg('old_name', 'new_name', 'b'), 'meson.options': dep_opts},
+        ['-Dold_name=v', '-Db=no'], {'old_name': 'v', 'new_name': 'v', 'b': 'false'})
+    # yielding
+    def ysub(topdecl, subdecl, args, want_top, want_sub, name):
+        add(name, {'meson.build': "project('top')\n" + _msg('mode') + "subproject('sub')\n", 'meson.options': topdecl + '\n',
+                   'subprojects/sub/meson.build': "project('sub')\n" + _msg('mode', sub=True),
+                   'subprojects/sub/meson.options': subdecl + '\n'}, args, {'mode': want_top, 'S_mode': want_sub})
+    ysub("option('mode', type: 'feature', value: 'auto')", "option('mode', type: 'combo', choices: ['fast', 'slow'], value: 'fast', yield: true)",
+         ['-Dmode=enabled'], 'enabled', 'fast', 'yield-different-type-not-followed')
+    ysub("option('mode', type: 'combo', choices: ['fast', 'slow'], value: 'fast')", "option('mode', type: 'combo', choices: ['fast', 'slow'], value: 'fast', yield: true)",
+         ['-Dmode=slow'], 'slow', 'slow', 'yield-same-type-follows-parent')
+    ysub("option('mode', type: 'combo', choices: ['fast', 'slow'], value: 'fast')", "option('mode', type: 'combo', choices: ['fast', 'slow'], value: 'fast', yield: true)",
+         ['-Dmode=slow', '-Dsub:mode=fast'], 'slow', 'fast', 'yield-explicit-sub-value-wins')
+    ysub("option('mode', type: 'string', value: 't')", "option('mode', type: 'boolean', value: true, yield: true)",
+         ['-Dmode=x'], 'x', 'true', 'yield-string-vs-boolean')
+    return C
+
+
+def cli_extra_run(ctx, idx, case):
+    import re
+    root = os.path.join(ctx.mkscratch(), 'clix-%d' % idx)
+    shutil.rmtree(root, ignore_errors=True)
+    for rel, text in case['files'].items():
+        p = os.path.join(root, rel)
+        os.makedirs(os.path.dirname(p), exist_ok=True)
+        open(p, 'w').write(text)
+    argv = ['setup', '--backend=none', os.path.join(root, 'b'), root] + [os.path.join(root, a) if a.endswith('.ini') else a for a in case['args']]
+    r = meson_cli(argv, cwd=root, timeout=600)
+    out = r.stdout + r.stderr
+    got = dict(re.findall(r'Message: (\w+)=(.*?)=\n', out))
+    shutil.rmtree(root, ignore_errors=True)
+    bad = []
+    if case['fail']:
+        if r.returncode == 0:
+            bad.append('accepted (rc=0) although the value violates the option')
+        elif 'Traceback' in out or 'Unhandled python' in out:
+            bad.append('refused with an internal error instead of a MesonException')
+    else:
+        if r.returncode != 0:
+            bad.append('setup failed: ' + out[-300:])
+        for k, v in case['expect'].items():
+            if got.get(k) != v:
+                bad.append('%s: expected %r, got %r' % (k, v, got.get(k)))
+    return {'name': case['name'], 'rc': r.returncode, 'got': got, 'bad': bad}
+
+
 def run(ctx):
     if ctx.replay:
         return replay(ctx)
@@ -561,7 +663,7 @@ def run(ctx):
                 cases.append(scenario_seq(sc, libdir, dump=(mask % 16 == 5)))
                 nexh += 1
     # ---- the same grid with a random value class per source (typed / string / invalid)
-    reps = 4 if thorough else 1
+    reps = 6 if thorough else 1
     for _ in range(reps):
         for cfg in CONFIGS:
             for mask in range(1, 256):
@@ -573,7 +675,7 @@ def run(ctx):
                 pre = eval_(cfg['tostr'](cfg['typed'][rng.randrange(8)])) if rng.random() < 0.12 else None
                 cases.append(scenario_seq(sc, libdir, dump=False, pre_augment=pre))
     # ---- random operation sequences
-    nseq = 40000 if thorough else 5000
+    nseq = 100000 if thorough else 5000
     for _ in range(nseq):
         cases.append(rand_seq(rng, libdir))
     # ---- yielding grid (all ordered pairs of kinds); an exception in the middle is part of the observable,
@@ -651,6 +753,32 @@ def run(ctx):
     ygrid = yield_grid()
     ctx.extra['yield_pairs'] = len(ygrid)
     scen += ygrid
+    # ---- an override that exists before the subproject is initialised keeps priority (all subsets of the
+    #      six sources that can reach the subproject key)
+    for cfg in CONFIGS:
+        if cfg['cls'] not in ('builtin', 'module') or cfg.get('build'):
+            continue
+        srcs6 = ['s_opt', 'mf_opt', 'cl_opt', 'spcall', 'mf_sub', 'cl_sub']
+        for mask in range(64):
+            src = {sname: eval_(source_value(cfg, SOURCES.index(sname), REALISTIC[sname], rng)) for j, sname in enumerate(srcs6) if mask >> j & 1}
+            scen.append(dict(o='aug', name=cfg['name'], pre=eval_(cfg['tostr'](cfg['typed'][4])), src=src, cross=bool(mask & 1)))
+    # ---- read-only options, renamed options, replaced deprecated values
+    for first in (True, False):
+        for nm, kd, vals in (('backend', kcombo(['ninja', 'vs', 'vs2010', 'vs2012', 'vs2013', 'vs2015', 'vs2017', 'vs2019', 'vs2022', 'vs2026', 'xcode', 'none']),
+                              ['ninja', 'none', 'xcode', 'bogus']), ('vsenv', 'b', [True, False, 'true', 'false', 'perhaps'])):
+            for v in vals:
+                scen.append(dict(o='misc', t='readonly', name=nm, kind=kd, value=eval_(v), first=first))
+    for cfg in CONFIGS[:6]:
+        for v in cfg['typed'][:3] + [cfg['tostr'](cfg['typed'][3])] + cfg['invalid'][:2]:
+            for via in ('set', 'top'):
+                scen.append(dict(o='misc', t='rename', kind=cfg['kind'], default=eval_(cfg['default']), value=eval_(v), via=via))
+    dmap = 'm' + S5 + 'old' + S4 + 'a' + S5 + 'yes' + S4 + 'true' + S5 + 'legacy' + S4 + 'zz'
+    for kind, default, cells in ((kcombo(LETTERS), 'b', [('old', 'Sa'), ('c', 'Sc'), ('legacy', None), ('zz', None)]),
+                                 ('b', False, [('yes', 'T'), ('true', 'T'), ('no', None)]),
+                                 (karr(LETTERS), [], [('old,b', 'L' + S4 + 'a' + S4 + 'b'), ('c', 'L' + S4 + 'c'), ('legacy', None)]),
+                                 ('s', 'x', [('old', 'Sa'), ('other', 'Sother')])):
+        for v, want in cells:
+            scen.append(dict(o='misc', t='replace', kind=kind, default=eval_(default), depr=dmap, value=eval_(v), want=want))
     # buildtype and prefix scenarios (exhaustive over sources)
     for bt in ['plain', 'debug', 'debugoptimized', 'release', 'minsize', 'custom']:
         for sb in ('p', 'mf', 'cl'):
@@ -718,6 +846,16 @@ def run(ctx):
         if bad:
             ctx.violation('C07:cli:' + json.dumps(c, sort_keys=True), 'CLI-level option value differs from the documented precedence (%s): %s'
                           % (','.join(bad), json.dumps(r)), {'cli': c, 'result': r})
+    xcases = cli_extra_cases()
+    xres = pmap(lambda ic: cli_extra_run(ctx, ic[0], ic[1]), list(enumerate(xcases)))
+    for c, r in zip(xcases, xres):
+        ctx.count(('clix', c['name']))
+        if r['bad']:
+            ctx.violation('C07:cli-project:' + c['name'], 'end-to-end project %s: %s' % (c['name'], '; '.join(r['bad'])),
+                          {'clix': c, 'result': r})
+    ctx.extra['cli_projects'] = len(xcases)
+    ctx.extra['cli_projects_ok'] = sum(1 for r in xres if not r['bad'])
+    ctx.cov['traces_validated_against_impl'] += len(xcases)
     ctx.extra['cli_configs'] = len(cli_cases)
     ctx.extra['cli_configs_ok'] = ncli_ok
     ctx.cov['traces_validated_against_impl'] += len(cli_cases)
